@@ -62,7 +62,10 @@ Valid(ev) ==
      THEN lo = 0 /\ hi = n + 1 /\ ConfIs(ev.conf, den) /\ ev.amb = 0                  \* c >= 1: the whole range, Confidence 1
      ELSE /\ ConfIs(ev.conf, MassR(lo, hi))
           /\ AtLeastLoose(MassR(lo, hi), c)
-          /\ SCmp(P18(ev.conf), [s |-> ev.c18.s, m |-> ev.c18.m]) >= 0      \* the REPORTED Confidence (18 digits of the float) is never below the requested level
+          \* the REPORTED Confidence (18 digits of the float) is never below the requested level: the accumulation goes on until
+          \* its float sum reaches c.  Only the whole range cannot grow: there the float sum of all masses may fall short of a c
+          \* within a few ulps of 1 although the exact mass (1) does not
+          /\ (lo = 0 /\ hi = n + 1) \/ SCmp(P18(ev.conf), [s |-> ev.c18.s, m |-> ev.c18.m]) >= 0
           /\ \E k \in Modes : lo <= k /\ k < hi
           /\ (hi - lo >= 2) => ~(AtLeastStrict(MassR(lo + 1, hi), c) /\ AtLeastStrict(MassR(lo, hi - 1), c))
           /\ ev.amb = 1 => Cmp(Mul(AbsDiff(MassR(lo + 1, hi + 1), MassR(lo, hi)), E9), den) <= 0
